@@ -151,8 +151,16 @@ def _run(tape, clock):
         if any(s[0] == 'out' for s in io[:pos % len(io)]):
             run.probe('interrupt_after_outputs' if 'interrupt' in term else ('exception_after_outputs' if term == 'raise_before' else 'return_after_outputs'))
     elif tape.draw(5) == 4:
-        spec.body.append(['raise', R.D.ErrA])
-        placed = 'raise_at_end'
+        # service code ends in an ordinary exception of its own or of a built-in class (a failed assert, a lookup error)
+        exc_cls = tape.choice([R.D.ErrA, AssertionError, R.D.ErrAB, KeyError, LookupError, ArithmeticError, StopIteration])
+        spec.body.append(['raise', exc_cls])
+        placed = 'raise_at_end:%s' % exc_cls.__name__
+        if exc_cls is not R.D.ErrA:
+            run.probe('operation_ends_in_a_builtin_exception')
+    if tape.draw(4) == 3:
+        # the operation RETURNS a value that looks like an error report (the shape the recorder itself uses for raised exceptions)
+        spec.op.result_extra = {'error_type': 'ValueError', 'error_repr': "ValueError('reported, not raised')"}
+        run.probe('operation_returns_an_error_report')
     if tape.draw(6) == 5:
         # recording is switched off (by an operator, from another thread) while the operation is in flight: whatever is
         # saved for this run must still tell the truth about how it ended
